@@ -156,6 +156,9 @@ func discharge(results []*FuncResult, opt solveOpts) {
 }
 
 func solveOne(r *FuncResult, o *Obligation, opt solveOpts) {
+	if o.Result != "" { // decided without a solver (syntactic frame clauses)
+		return
+	}
 	dir := filepath.Join(opt.outDir, smtName(r.Tags))
 	os.MkdirAll(dir, 0o755)
 	file := filepath.Join(dir, smtName(o.Name)+".smt2")
